@@ -68,7 +68,13 @@ def raw_csv_rows(res_desc, data):
               skipinitialspace=dialect.get('skipInitialSpace', False))
     if 'escapeChar' in dialect:
         kw['escapechar'] = dialect['escapeChar']
-    rows = list(csv.reader(io.StringIO(text, newline=''), **kw))
+    # the independent reader must not impose a limit the written format does not have - but the process-wide limit is
+    # put back at once, because the library under test reads CSV in this same process
+    old_limit = csv.field_size_limit(2 ** 31 - 1)
+    try:
+        rows = list(csv.reader(io.StringIO(text, newline=''), **kw))
+    finally:
+        csv.field_size_limit(old_limit)
     if not rows:
         return [], []
     return rows[0], rows[1:]
